@@ -221,6 +221,33 @@ type fakeReader struct {
 	// reader is closed - what an HTTP body does on a connection on which nothing arrives
 	stall  context.Context
 	closed chan struct{}
+	// what the reader sees of the context of the call that opened it (a reader over a network
+	// stream releases / drains the stream under that context): sampled at the start of every
+	// method for as long as the reader has not been closed - see sample
+	ctx     context.Context // the context the member was called with
+	caller  context.Context // the caller's context
+	early   bool            // some method started with ctx cancelled while the caller's context was live
+	earlyAt string          // the first such method
+}
+
+// sample is called at the start of every method of a member's reader (closing: the method is
+// Close).  It looks at the context of the call that opened the reader first and at the caller's
+// context second: "done" then "live" means the member's context was cancelled by somebody other
+// than the caller (a context never comes back to life, so the caller's was live at the first
+// look too).  Only a reader that has not been closed counts: the count of Closes is read last,
+// so a Close that has completed in the meantime (after which the context is rightly cancelled)
+// takes the sample out.
+func (r *fakeReader) sample(method string) {
+	if r.ctx == nil {
+		return
+	}
+	dead := r.ctx.Err() != nil
+	live := r.caller.Err() == nil
+	r.mu.Lock()
+	if r.closes == 0 && dead && live && !r.early {
+		r.early, r.earlyAt = true, method
+	}
+	r.mu.Unlock()
 }
 
 // wait is where a stalled reader's Read waits.
@@ -239,6 +266,7 @@ func (r *fakeReader) wait() error {
 }
 
 func (r *fakeReader) Read(buf []byte) (int, error) {
+	r.sample("Read")
 	if err := r.wait(); err != nil {
 		return 0, err
 	}
@@ -258,6 +286,7 @@ func (r *fakeReader) Read(buf []byte) (int, error) {
 }
 
 func (r *fakeReader) Close() error {
+	r.sample("Close")
 	r.mu.Lock()
 	r.closes++
 	if r.closes == 1 && r.closed != nil {
@@ -266,15 +295,20 @@ func (r *fakeReader) Close() error {
 	r.mu.Unlock()
 	return r.err
 }
-func (r *fakeReader) Descriptor() ociregistry.Descriptor { return r.desc }
+func (r *fakeReader) Descriptor() ociregistry.Descriptor {
+	r.sample("Descriptor")
+	return r.desc
+}
 
 // richReader is a member reader with more methods than ociregistry.BlobReader asks for.
 type richReader struct{ *fakeReader }
 
 func (r richReader) WriteTo(w io.Writer) (int64, error) {
+	r.sample("WriteTo")
 	return io.Copy(w, struct{ io.Reader }{r.fakeReader})
 }
 func (r richReader) Seek(off int64, whence int) (int64, error) {
+	r.sample("Seek")
 	if err := r.wait(); err != nil {
 		return 0, err
 	}
@@ -283,6 +317,7 @@ func (r richReader) Seek(off int64, whence int) (int64, error) {
 	return r.src.Seek(off, whence)
 }
 func (r richReader) ReadAt(buf []byte, off int64) (int, error) {
+	r.sample("ReadAt")
 	if err := r.wait(); err != nil {
 		return 0, err
 	}
@@ -306,13 +341,14 @@ type member struct {
 	deadAtRet bool
 	rd        *fakeReader
 	calls     int
-	fail      error  // what the member fails with (memberErr[idx] in the flavour of the case)
-	closeErr  error  // returned by Close of the readers this member hands out
-	readErrV  error  // what Read of those readers fails with when readErr is set
-	readErr   bool   // the readers this member hands out fail half way through
-	rich      bool   // ... and are richReaders
-	stall     bool   // ... and are stalled streams
-	gid       string // the goroutine that made the call
+	fail      error           // what the member fails with (memberErr[idx] in the flavour of the case)
+	closeErr  error           // returned by Close of the readers this member hands out
+	readErrV  error           // what Read of those readers fails with when readErr is set
+	readErr   bool            // the readers this member hands out fail half way through
+	rich      bool            // ... and are richReaders
+	stall     bool            // ... and are stalled streams
+	gid       string          // the goroutine that made the call
+	caller    context.Context // the caller's context (for the readers' samples)
 
 	// filled in by the pass-through wrapper, when there is one
 	wrapped    bool
@@ -355,7 +391,7 @@ func (m *member) reader(ctx context.Context) (ociregistry.BlobReader, error) {
 		content := memberContent(m.idx)
 		rd := &fakeReader{src: bytes.NewReader([]byte(content)),
 			desc: ociregistry.Descriptor{MediaType: "application/octet-stream", Digest: memberDigest(m.idx), Size: int64(len(content))},
-			err:  m.closeErr, failAt: -1, rdErr: m.readErrV}
+			err:  m.closeErr, failAt: -1, rdErr: m.readErrV, ctx: ctx, caller: m.caller}
 		if m.stall {
 			rd.stall, rd.closed = ctx, make(chan struct{})
 		}
@@ -741,6 +777,11 @@ type msnap struct {
 	// foreign caller context: package context's forwarding goroutine for this member's context
 	// is parked (the context has not been cancelled)
 	Fwd bool `json:"ctx_forwarder_parked,omitempty"`
+	// some method of the reader the member handed out (Close above all) started, the reader
+	// not yet closed, with the member's context already cancelled while the caller's was live;
+	// which method it was
+	Early   bool   `json:"ctx_cancelled_under_open_reader"`
+	EarlyAt string `json:"ctx_cancelled_under_open_reader_seen_by,omitempty"`
 }
 
 type snapshot struct {
@@ -797,6 +838,7 @@ func runCase(in input) runResult {
 		ctx, cancel = context.WithCancel(context.Background())
 	}
 	defer cancel()
+	ms[0].caller, ms[1].caller = ctx, ctx
 
 	var (
 		started, cancelled, closeIssued bool
@@ -968,6 +1010,7 @@ func runCase(in input) runResult {
 				x.Reader = "called-more-than-once"
 			} else if m.rd != nil {
 				m.rd.mu.Lock()
+				x.Early, x.EarlyAt = m.rd.early, m.rd.earlyAt
 				switch m.rd.closes {
 				case 0:
 					x.Reader = "open"
@@ -1196,7 +1239,7 @@ func coqMsnap(m msnap) string {
 	}
 	rd := map[string]string{"none": "RdNone", "open": "RdOpen", "closed": "RdClosed", "closed-twice": "RdTwice",
 		"called-more-than-once": "RdTwice", "wrapper-and-fake-differ": "RdTwice", "ctx-and-forwarder-differ": "RdTwice"}[m.Reader]
-	return fmt.Sprintf("(mkMsnap %s %s %s %s %s %s)", hx.Bool(m.Started), ret, hx.Bool(m.DeadAtRet), hx.Bool(m.Dead), rd, hx.Bool(m.Timer))
+	return fmt.Sprintf("(mkMsnap %s %s %s %s %s %s %s)", hx.Bool(m.Started), ret, hx.Bool(m.DeadAtRet), hx.Bool(m.Dead), rd, hx.Bool(m.Timer), hx.Bool(m.Early))
 }
 
 func coqSnap(s snapshot) string {
